@@ -94,6 +94,7 @@ func c01Gen(rt *rapid.T) sPlan {
 		sb.Tape = rapid.SliceOfN(rapid.IntRange(0, 1000), 0, 30).Draw(rt, "tape")
 		p.Batches = append(p.Batches, sb)
 	}
+	p.Prelude = rapid.IntRange(0, 2).Draw(rt, "prelude") == 0 && !p.Batches[0].ViaAPI
 	return p
 }
 
@@ -120,8 +121,14 @@ func c01Judge(obs *sigObs) (v *viol, recon int) {
 	if obs.Err != nil {
 		return violf("harness", "%v", obs.Err), 0
 	}
-	ref := map[string][]byte{} // batch|id -> proposed payload
-	for _, b := range obs.Batches {
+	ref := map[string][]byte{}   // batch|id -> proposed payload
+	keyOf := map[string][]byte{} // batch -> group key of its round, where it is not the main round
+	all := obs.Batches
+	if obs.Prelude != nil {
+		all = append([]*batchObs{obs.Prelude}, all...)
+		keyOf[obs.Prelude.BatchID] = obs.Prelude.GroupKey
+	}
+	for _, b := range all {
 		for _, m := range b.Ref {
 			ref[b.BatchID+"|"+m.ID] = m.Payload
 		}
@@ -134,17 +141,21 @@ func c01Judge(obs *sigObs) (v *viol, recon int) {
 		if !ok {
 			return violf("signature-for-unproposed-message", "%s carries a signature for batch %q message %q, which was not proposed", where, e.BatchID, e.MessageID)
 		}
-		if err := oracle.VerifyETH(obs.GroupKey, want, e.Signature); err != nil {
+		gk := obs.GroupKey
+		if k, ok := keyOf[e.BatchID]; ok {
+			gk = k
+		}
+		if err := oracle.VerifyETH(gk, want, e.Signature); err != nil {
 			return violf("invalid-signature", "%s: signature for message %q (%d-byte payload) is not a valid Ethereum BLS signature of the proposed payload under the group key: %v", where, e.MessageID, len(want), err)
 		}
 		if prev, ok := sigOf[key]; ok && !bytes.Equal(prev, e.Signature) {
 			return violf("signatures-disagree", "%s: message %q has two different reconstructed signatures", where, e.MessageID)
 		}
 		sigOf[key] = e.Signature
-		if prev, ok := byPayload[string(want)]; ok && !bytes.Equal(prev, e.Signature) {
+		if prev, ok := byPayload[string(gk)+"|"+string(want)]; ok && !bytes.Equal(prev, e.Signature) {
 			return violf("signatures-disagree", "%s: the same payload signed in two batches / under two ids yields different signatures", where)
 		}
-		byPayload[string(want)] = e.Signature
+		byPayload[string(gk)+"|"+string(want)] = e.Signature
 		return nil
 	}
 	for _, m := range obs.Board {
@@ -224,6 +235,9 @@ func c01Run(t *testing.T, st *vstat.Stats, p sPlan) (v *viol) {
 	}
 	if subset {
 		st.Class("signers<n")
+	}
+	if obs.Prelude != nil {
+		st.Class("same-tasks-signed-in-the-earlier-round-first")
 	}
 	for _, b := range p.Batches {
 		for _, f := range b.Faulty {
